@@ -14,6 +14,9 @@ OPS = (C("node_port.py", "tys.py", "ops.py"), ["hugr.ops.DFG.outer_signature", "
 SERIAL = (C("node_port.py", "tys.py", "ops.py", "utils.py", "base.py", "serial.py"), ["hugr.hugr.base._order_port_offset", "hugr.hugr.base.Hugr._constrain_offset"])
 # creation of a dataflow container: Input then Output under the container, Input row = the container's input row; set_outputs hands the
 # wires to the Output node in order and makes the container's output row the Output node's row (graph-store mutators: trusted recorders)
+# function calls: one Call / LoadFunc node from the callee's type scheme, the static function edge from the callee's output 0 to the
+# operation's function port, value arguments wired in order
+CALLS = (C("node_port.py", "build_call.py"), ["hugr.build.dfg.DfBase.call", "hugr.build.dfg.DfBase.load_function"])
 IO = (C("node_port.py", "build_io.py"), ["hugr.build.dfg.DfBase._init_io_nodes", "hugr.build.dfg.DfBase.set_outputs", "hugr.build.dfg.DfBase.add_op"])
 
 
@@ -30,12 +33,13 @@ def run(tier, seed):
     ]
     res.assumptions = ["the whole-program statement (every well-formed builder program yields a valid HUGR) is NOT proved: it is decided by the bounded run over random well-formed programs only",
                        "Block._wire_up_port (dominator-edge fallback), Cfg._init_impl, set_outputs / _set_out_types and the container output propagation are not under contract: bounded only"]
-    standard_flow(res, FILES, TARGETS, None, bounded_modules=[("bounded.c01", 600, 3000)], more=[OPS, SERIAL, IO])
+    standard_flow(res, FILES, TARGETS, None, bounded_modules=[("bounded.c01", 600, 3000)], more=[OPS, SERIAL, IO, CALLS])
     res.level = "other"
     res.explanation = ("Proved from the real source: _ancestral_sibling returns an ancestor-or-self of the target whose parent is the source's parent (or None); DfBase._wire_up_port adds exactly the value "
                        "link source -> target port and, exactly when that ancestor is not the target itself (the wire enters a nested region), the state-order edge from the source's node to that "
                        "ancestor - and raises NoSiblingAncestor exactly when there is none; DfBase._init_io_nodes creates exactly an Input (row = the container's input row, with its count) and then an Output under the container, and DfBase.set_outputs hands "
-                       "the wires to the Output node in order and makes the container's output row the Output node's row (over a ghost trace of the graph-store calls, which C04 proves); the container signatures and static-port kinds the row / edge-kind rules rest on (shared with C06) and the "
+                       "the wires to the Output node in order and makes the container's output row the Output node's row (over a ghost trace of the graph-store calls, which C04 proves); DfBase.call / load_function create one Call / LoadFunc node from the callee's type scheme and attach the static function edge from the callee's output 0 to the "
+                       "operation's function port (input 0 for LoadFunc), wiring the value arguments in order; the container signatures and static-port kinds the row / edge-kind rules rest on (shared with C06) and the "
                        "serialized port offsets (shared with C03). That every well-formed builder program (all builder kinds, nesting, Ext and Dom edges, partially used multi-output operations, "
                        "linear values) yields a HUGR - and a serialized document - satisfying rules R1-R10 is decided by a bounded run of random programs against the transcribed validator -> other.")
     return res.finish()
